@@ -67,6 +67,12 @@ func NewEvaluator(btpParams Parameters, evk *EvaluationKeys) (eval *Evaluator, e
 			return nil, fmt.Errorf("cannot NewBootstrapper: ckks.NewDomainSwitcher: %w", err)
 		}
 
+		// The iterated mode compares the bootstrapped ciphertext with its input inside Evaluate, before the factor 1/2
+		// below is compensated by EvaluateConjugateInvariant: the two cannot be combined.
+		if btpParams.IterationsParameters != nil {
+			return nil, fmt.Errorf("cannot NewBootstrapper: IterationsParameters are not supported with a ring.ConjugateInvariant residual ring")
+		}
+
 		// The switch to standard to conjugate invariant multiplies the scale by 2
 		btpParams.SlotsToCoeffsParameters.Scaling = new(big.Float).SetFloat64(0.5)
 	}
